@@ -221,6 +221,48 @@ def build_harness(pid):
     return build_binary(src, pid.lower(), HARFLAGS, lib, libsig)
 
 
+def build_harness_fz(pid):
+    """Same harness, libFuzzer front end (coverage-guided choice streams)."""
+    r = build_lib()
+    if r is None:
+        return None
+    lib, libsig = r
+    src = harness_source(pid)
+    return build_binary(src, pid.lower() + "-fz", FUZFLAGS + ["-DVF_FUZZ", "-Wno-deprecated-declarations"], lib, libsig)
+
+
+def bytes_to_case(law, data, dst):
+    words = [int.from_bytes(data[i:i + 8].ljust(8, b"\0"), "little") for i in range(0, len(data), 8)]
+    while words and words[-1] == 0:
+        words.pop()
+    with open(dst, "w") as f:
+        f.write("law %s\nchoices %s\n# fail: found by the coverage-guided front end (libFuzzer artifact)\n" % (law, " ".join("%x" % w for w in words)))
+
+
+def fz_job(job):
+    exe, law, runs, seed, k, outdir, known_ids, maxlen = job
+    d = os.path.join(outdir, "fz-%s-%d" % (law, k))
+    os.makedirs(os.path.join(d, "corpus"))
+    os.makedirs(os.path.join(d, "art"))
+    e = env_for()
+    e["ASAN_OPTIONS"] = ASAN_ENV.replace("handle_abort=1", "handle_abort=0")
+    e.update(VF_LAW=law, VF_KNOWN=",".join(known_ids), VF_STATS=os.path.join(d, "stats.json"), VF_FAILFILE=os.path.join(d, "fail.case"))
+    cmd = [exe, os.path.join(d, "corpus"), "-artifact_prefix=" + d + "/art/", "-max_len=%d" % maxlen, "-len_control=0", "-runs=%d" % runs, "-seed=%d" % (seed % (2 ** 31 - 2) + 1),
+           "-timeout=120", "-rss_limit_mb=4096", "-use_value_profile=1", "-print_final_stats=1", "-close_fd_mask=1"]
+    with open(os.path.join(d, "log.txt"), "w") as lf:
+        try:
+            rc = subprocess.run(cmd, stdout=lf, stderr=subprocess.STDOUT, env=e, timeout=4 * 3600).returncode
+        except subprocess.TimeoutExpired:
+            rc = -999
+    st = None
+    try:
+        st = json.load(open(os.path.join(d, "stats.json")))
+    except Exception:
+        pass
+    arts = [a for a in glob.glob(os.path.join(d, "art", "*")) if os.path.basename(a).startswith(("crash-", "timeout-"))]
+    return dict(law=law, rc=rc, stats=st, fail=os.path.join(d, "fail.case"), arts=arts, log=os.path.join(d, "log.txt"))
+
+
 # ----------------------------------------------------------------------------- known findings
 def load_known():
     out = []
@@ -472,6 +514,48 @@ def check(pid, tier, seed, replay=None, only_law=None, scale=1.0):
         else:
             machinery_errors.append("shard %s/%d exited %s without a case file; log tail: %s" % (r["law"], r["shard"], r["rc"], tail(r["log"], 15)))
 
+    # ---- 3b. coverage-guided front end (thorough tier, or VERIF_FZ=1): libFuzzer mutates the choice stream of every RC law
+    fz_cov = {}
+    if tier == "thorough" or os.environ.get("VERIF_FZ"):
+        exe_fz = build_harness_fz(pid)
+        if exe_fz is None:
+            machinery_errors.append("coverage-guided front end does not build")
+        else:
+            fjobs = []
+            for l in laws:
+                if l["kind"] != "rc":
+                    continue
+                runs = int(min(2000000, max(20000, (l["thorough"] if tier == "thorough" else l["quick"]) * scale / 4)))
+                for k in range(2 if tier == "thorough" else 1):
+                    sd = splitmix(seed ^ int(hashlib.sha1((pid + l["name"] + "fz").encode()).hexdigest()[:12], 16) ^ k)
+                    fjobs.append((exe_fz, l["name"], runs, sd, k, tmp, active, max(64, l["len"] * 8)))
+            with cf.ThreadPoolExecutor(NCPU) as ex:
+                fres = list(ex.map(fz_job, fjobs))
+            for r in fres:
+                fc = fz_cov.setdefault(r["law"], dict(evaluations=0, nontrivial=0, hashes=set(), excluded_known=0))
+                if r["stats"]:
+                    fc["evaluations"] += r["stats"]["evaluations"]
+                    fc["nontrivial"] += r["stats"]["nontrivial"]
+                    fc["hashes"].update(r["stats"]["nt_hashes"])
+                    fc["excluded_known"] += r["stats"]["skipped_known"]
+                cand = None
+                if os.path.exists(r["fail"]):
+                    cand = save_replay(pid, r["fail"], r["law"] + "-fz")
+                elif r["arts"]:
+                    tmpc = r["arts"][0] + ".case"
+                    bytes_to_case(r["law"], open(r["arts"][0], "rb").read(), tmpc)
+                    cand = save_replay(pid, tmpc, r["law"] + "-fzcrash")
+                elif r["rc"] != 0:
+                    machinery_errors.append("coverage-guided job for %s exited %s: %s" % (r["law"], r["rc"], tail(r["log"], 6).replace("\n", " | ")[-300:]))
+                if cand:
+                    lawinfo = next(l for l in laws if l["name"] == r["law"])
+                    oks = [run_replay(exe, cand, active, timeout=lawinfo["hang_s"] * 10 + 120)[0] for _ in range(3)]
+                    if all(o in ("fail", "died") for o in oks):
+                        msg = [ln[8:] for ln in open(cand).read().splitlines() if ln.startswith("# fail: ")]
+                        violations.append((r["law"], cand, "(coverage-guided) " + " ".join(msg)[:500]))
+                    elif not (os.path.basename(cand).startswith(r["law"] + "-fzcrash") and "timeout-" in r["arts"][0]):
+                        machinery_errors.append("FLAKY coverage-guided case %s: %s" % (cand, oks))
+
     # ---- 4. evidence
     seen = set()
     uniq = []
@@ -481,6 +565,13 @@ def check(pid, tier, seed, replay=None, only_law=None, scale=1.0):
             uniq.append(v)
     perlaw = {}
     violations = [v for v in uniq if perlaw.setdefault(v[0], []).append(1) or len(perlaw[v[0]]) <= 2]
+    for name, fc in fz_cov.items():
+        if name in per_law:
+            per_law[name]["evaluations"] += fc["evaluations"]
+            per_law[name]["nontrivial"] += fc["nontrivial"]
+            per_law[name]["hashes"].update(fc["hashes"])
+            per_law[name]["skipped_known"] += fc["excluded_known"]
+            per_law[name]["fz_evaluations"] = fc["evaluations"]
     evals = sum(p["evaluations"] for p in per_law.values())
     dn = sum(len(p["hashes"]) for p in per_law.values())
     samples = []
@@ -491,7 +582,7 @@ def check(pid, tier, seed, replay=None, only_law=None, scale=1.0):
     for name, p in per_law.items():
         lawcov[name] = dict(kind=p["kind"], evaluations=p["evaluations"], nontrivial=p["nontrivial"], distinct_nontrivial=len(p["hashes"]),
                             distinct_capped=p["capped"], excluded_known=p["skipped_known"], excluded_by_finding=p["known_hits"],
-                            exhaustive=bool(p["kind"] == "enum" and p["exhaustive"]), classes=p["labels"], worst_observed=p["worst"], nontrivial_rule=p["nt_rule"])
+                            exhaustive=bool(p["kind"] == "enum" and p["exhaustive"]), coverage_guided_evaluations=p.get("fz_evaluations", 0), classes=p["labels"], worst_observed=p["worst"], nontrivial_rule=p["nt_rule"])
     rule = ("cases are decoded from rapidcheck-generated 64-bit choice vectors (kind rc, shrinkable) or from the complete draw tree (kind enum); "
             "a case is non-trivial by the per-law rule listed under laws.<law>.nontrivial_rule; distinct = distinct FNV-1a hash of the full textual case description, "
             "counted exactly per law up to 250000 per worker (beyond that not counted: lower bound)")
